@@ -83,7 +83,7 @@ func (b *stateBackend) Store(
 	stateUpdate *core.StateUpdate,
 	newClasses map[felt.Felt]core.ClassDefinition,
 ) error {
-	return b.database.Write(func(batch db.Batch) error {
+	return b.resetFilterOnError(b.database.Write(func(batch db.Batch) error {
 		if err := verifyBlockSuccession(b.database, block); err != nil {
 			return err
 		}
@@ -117,11 +117,11 @@ func (b *stateBackend) Store(
 		}
 
 		return b.runningFilter.InsertWithBatch(batch, block.EventsBloom, block.Number)
-	})
+	}))
 }
 
 func (b *stateBackend) RevertHead() error {
-	return b.database.Write(func(batch db.Batch) error {
+	return b.resetFilterOnError(b.database.Write(func(batch db.Batch) error {
 		blockNumber, err := core.GetChainHeight(b.database)
 		if err != nil {
 			return err
@@ -151,7 +151,7 @@ func (b *stateBackend) RevertHead() error {
 		}
 
 		return b.runningFilter.OnReorgWithBatch(batch)
-	})
+	}))
 }
 
 func (b *stateBackend) GetReverseStateDiff() (core.StateDiff, error) {
@@ -219,7 +219,7 @@ func (b *stateBackend) Finalise(
 	newClasses map[felt.Felt]core.ClassDefinition,
 	sign core.BlockSignFunc,
 ) error {
-	return b.database.Write(func(batch db.Batch) error {
+	return b.resetFilterOnError(b.database.Write(func(batch db.Batch) error {
 		st, err := state.New(stateUpdate.OldRoot, b.stateDB, batch)
 		if err != nil {
 			return err
@@ -254,7 +254,7 @@ func (b *stateBackend) Finalise(
 		}
 
 		return b.runningFilter.InsertWithBatch(batch, block.EventsBloom, block.Number)
-	})
+	}))
 }
 
 func (b *stateBackend) VerifyBlockHash(
